@@ -25,14 +25,17 @@ class ScalesSocket(object):
   def open(self):
     resolved = self._resolveAddr()
     for res in resolved:
-      self.handle = gsocket(res[0], res[1])
+      handle = gsocket(res[0], res[1])
       try:
-        self.handle.connect(res[4])
+        handle.connect(res[4])
       except socket.error as e:
+        # A socket that failed to connect is not an open connection.
+        handle.close()
         if res is not resolved[-1]:
           continue
         else:
           raise e
+      self.handle = handle
       break
 
   def close(self):
